@@ -22,3 +22,31 @@ package notify
 //@   ensures [first] result == ReasonFirstNotification ==> (entry == nil || len(entry.FiringAlerts) == 0)
 //@   ensures [range] result >= 0 && result <= 5
 //@   assigns nothing
+
+// ---- C15: gating of a flush by the route's mute / active time intervals.
+// muted flushes send nothing and the marker records exactly the muting interval names; otherwise the alerts pass
+// through untouched and the marker is cleared.
+//@ func (TimeMuteStage).Exec
+//@   props C15
+//@   requires tms.muter != nil && tms.marker != nil && tms.metrics != nil && tms.metrics.numNotificationSuppressedTotal != nil && l != nil && tracer != nil && ctx != nil
+//@   after call Tracer).Start assume res0 != nil && res1 != nil
+//@   after call WithLabelValues assume res0 != nil
+//@   ensures [muted-sends-nothing] called("TimeMuter).Mutes") && ret2("TimeMuter).Mutes") == nil && ret("TimeMuter).Mutes") ==> result2 == nil && result1 == nil
+//@   ensures [not-muted-passes] result2 == nil && !(called("TimeMuter).Mutes") && ret("TimeMuter).Mutes")) && called("SetMuted") ==> result1 == alerts
+//@   ensures [decided-by-intervals] result2 == nil && result1 == nil && alerts != nil ==> called("TimeMuter).Mutes") && ret("TimeMuter).Mutes")
+//@   at call SetMuted assert [marker-names] called("TimeMuter).Mutes") ? arg3 == ret1("TimeMuter).Mutes") : arg3 == nil
+//@   noeffect TimeMuter).Mutes SetMuted
+//@   assigns nothing
+
+//@ func (TimeActiveStage).Exec
+//@   props C15
+//@   requires tas.muter != nil && tas.marker != nil && tas.metrics != nil && tas.metrics.numNotificationSuppressedTotal != nil && l != nil && tracer != nil && ctx != nil
+//@   after call Tracer).Start assume res0 != nil && res1 != nil
+//@   after call WithLabelValues assume res0 != nil
+//@   ensures [inactive-sends-nothing] called("TimeMuter).Mutes") && ret2("TimeMuter).Mutes") == nil && !ret("TimeMuter).Mutes") ==> result2 == nil && result1 == nil
+//@   ensures [active-passes] result2 == nil && called("TimeMuter).Mutes") && ret("TimeMuter).Mutes") ==> result1 == alerts
+//@   ensures [no-active-intervals-passes] result2 == nil && !called("TimeMuter).Mutes") && called("SetMuted") ==> result1 == alerts
+//@   ensures [decided-by-intervals] result2 == nil && result1 == nil && alerts != nil ==> called("TimeMuter).Mutes") && !ret("TimeMuter).Mutes")
+//@   at call SetMuted assert [marker-names] (called("TimeMuter).Mutes") && !ret("TimeMuter).Mutes")) ? len(arg3) > 0 : arg3 == nil
+//@   noeffect TimeMuter).Mutes SetMuted
+//@   assigns nothing
